@@ -111,6 +111,8 @@ fn oracle(out: &mut Out, bytes: &[u8], op: &str) -> String {
                             Some(Ok(tj)) => match serde_json::from_str::<serde_json::Value>(&tj) {
                                 Err(e) => out.fail("json-does-not-parse", op, &format!("TimedMessage: {e}")),
                                 Ok(tv) => {
+                                    // correspondence with the model of the timed record
+                                    out.case(&format!("timed {}", hex(bytes)), &format!("ok {}", canon_json(&tj)));
                                     if let Err(k) = dup_key(&tj) {
                                         out.fail("duplicate-key", op, &format!("TimedMessage: key {k} twice"));
                                     }
